@@ -146,9 +146,9 @@ def query_check(run, gens, own_clauses, rule, assumptions, ops=False, mc=None, r
 
 # --------------------------------------------------------------------------------------
 def c02(run):
-    gens = [("Gen_Selector", "sel", 16, 24, 6000, 70000, ["SelectionLaw", "EmitSel"], 1000),
+    gens = [("Gen_Selector", "sel", 16, 24, 6000, 25000, ["SelectionLaw", "EmitSel"], 1000),
             # tick 500 ms: samples two ticks apart, 23 steps of one tick (finer than the sample spacing, three batches of steps)
-            ("Gen_Selector", "sel500", 48, 64, 2500, 30000, ["SelectionLaw", "EmitSel"], 500)]
+            ("Gen_Selector", "sel500", 48, 64, 2500, 10000, ["SelectionLaw", "EmitSel"], 500)]
     return query_check(
         run, gens, RESULT,
         rule=("TLC enumerates every sample layout x lookback x per-query lookback x offset x @ x step x window of the "
@@ -161,8 +161,8 @@ def c02(run):
 
 
 def c03(run):
-    gens = [("Gen_Window", "win", 8, 16, 9000, 90000, ["WindowLaw", "EmitWin"], 1000),
-            ("Gen_Window", "win500", 6, 16, 1500, 12000, ["EmitWin"], 500)]
+    gens = [("Gen_Window", "win", 8, 16, 9000, 30000, ["WindowLaw", "EmitWin"], 1000),
+            ("Gen_Window", "win500", 6, 16, 1500, 6000, ["EmitWin"], 500)]
     return query_check(
         run, gens, RESULT,
         rule=("TLC enumerates every sample layout (floats / staleness markers, two value patterns) x range x step x offset x @ x "
@@ -174,7 +174,7 @@ def c03(run):
 
 
 def c04(run):
-    gens = [("Gen_Agg", "agg", 1, 1, 6000, 120000, ["AggLaw", "EmitAgg"], 1000)]
+    gens = [("Gen_Agg", "agg", 1, 1, 6000, 30000, ["AggLaw", "EmitAgg"], 1000)]
     return query_check(
         run, gens, RESULT,
         rule=("TLC enumerates 3 label configurations (labels absent on some series, two metrics with equal label sets, an upper-case "
@@ -186,7 +186,7 @@ def c04(run):
 
 
 def c05(run):
-    gens = [("Gen_Bin", "bin", 1, 1, 6000, 120000, ["BinLaw", "EmitBin"], 1000)]
+    gens = [("Gen_Bin", "bin", 1, 1, 6000, 30000, ["BinLaw", "EmitBin"], 1000)]
     return query_check(
         run, gens, RESULT,
         rule=("TLC enumerates 5 label configurations of two metrics (one-to-one, absent labels, many-to-one, duplicated one-side, "
@@ -199,10 +199,10 @@ def c05(run):
 
 
 def c06(run):
-    gens = [("Gen_Func", "fn", 1, 1, 4000, 60000, ["FuncLaw", "EmitFn"], 1000),
-            ("Gen_Func", "fn500", 3, 1, 1000, 20000, ["EmitFn"], 500),
+    gens = [("Gen_Func", "fn", 1, 1, 4000, 20000, ["FuncLaw", "EmitFn"], 1000),
+            ("Gen_Func", "fn500", 3, 1, 1000, 6000, ["EmitFn"], 500),
             # histogram_quantile: the case analysis of the reference's bucketQuantile, transcribed in PromQLRef
-            ("Gen_Hist", "hist", 128, 16, 1000, 12000, ["HistLaw", "EmitHq"], 1000)]
+            ("Gen_Hist", "hist", 128, 16, 1000, 6000, ["HistLaw", "EmitHq"], 1000)]
     return query_check(
         run, gens, RESULT,
         rule=("TLC enumerates every presence history of m{a=x} over a 4-tick period x patterns of the second series x value domains "
@@ -284,8 +284,8 @@ def c19(run):
     binary = vlib.build()
     quick = run.tier == "quick"
     scs = vlib.generate(run, "Gen_WF", gen_cfg(run.tier, run.seed, 1, ["EmitWF"]), "wf", fam="C19")
-    scs += all_scenarios(run, 1200, 12000)
-    scs += vlib.gen_random(run, binary, "compose", 2500 if quick else 30000, "C19")
+    scs += all_scenarios(run, 1200, 5000)
+    scs += vlib.gen_random(run, binary, "compose", 2500 if quick else 10000, "C19")
     chunks = max(1, min(vlib.NCPU // 2, len(scs) // 400))
     traces = vlib.replay(run, binary, "query", scs, "q", chunks=chunks)
     # the same through the distributed engine (another planner path: its results must be as well formed):
@@ -320,9 +320,9 @@ def c18(run):
     binary = vlib.build()
     mc_volcano(run)
     quick = run.tier == "quick"
-    scs = all_scenarios(run, 150, 4000)
+    scs = all_scenarios(run, 150, 1500)
     scs += vlib.generate(run, "Gen_WF", gen_cfg(run.tier, run.seed, 1, ["EmitWF"]), "wf", fam="C18")
-    scs += vlib.gen_random(run, binary, "compose", 300 if quick else 8000, "C18")
+    scs += vlib.gen_random(run, binary, "compose", 300 if quick else 2500, "C18")
     chunks = max(1, min(vlib.NCPU // 2, len(scs) // 100))
     traces = vlib.replay(run, binary, "stream", scs, "st", chunks=chunks)
     viols, stats = vlib.validate(run, "StreamTrace", traces, "st", extra_constants=" B = 10")
@@ -351,11 +351,11 @@ def c09(run):
     quick = run.tier == "quick"
     # exhaustive model check of the rewrite rules + emission of the pairs on which a rewrite fires
     cfg = gen_cfg(run.tier, run.seed, 24 if quick else 40, ["MergeSound", "MergeWidens", "PropagateSound", "EmitOpt"])
-    scs = vlib.generate(run, "Optimizer", cfg, "opt", fam="C09", cap=(5000 if quick else 60000), timeout=3000)
+    scs = vlib.generate(run, "Optimizer", cfg, "opt", fam="C09", cap=(5000 if quick else 20000), timeout=3000)
     log("Optimizer.tla: %s pairs model-checked, %d scenarios emitted" % (run.cov["gen"][-1].get("enumerated"), len(scs)))
     # the general query families and random expressions, too (offsets / @ on the selectors, larger expressions)
     scs += all_scenarios(run, 150, 3000, only=("bin", "cmp", "fn"))
-    scs += vlib.gen_random(run, binary, "compose", 600 if quick else 15000, "C09")
+    scs += vlib.gen_random(run, binary, "compose", 600 if quick else 4000, "C09")
     chunks = max(1, min(vlib.NCPU // 2, len(scs) // 300))
     traces = vlib.replay(run, binary, "optim", scs, "op", chunks=chunks)
     st = session_validate(run, traces, lambda clause, fam: ["C09"] if clause == "Agree" else ([run.prop, "C13"] if clause == "ProcessDead" else []))
@@ -378,10 +378,10 @@ def c16(run):
     binary = vlib.build()
     quick = run.tier == "quick"
     cfg = gen_cfg(run.tier, run.seed, 3 if quick else 1, ["HintsEqual", "HintsSufficient", "EmitHint"])
-    scs = vlib.generate(run, "Hints", cfg, "hint", fam="C16", cap=(3000 if quick else 40000), timeout=3000)
+    scs = vlib.generate(run, "Hints", cfg, "hint", fam="C16", cap=(3000 if quick else 12000), timeout=3000)
     log("Hints.tla: %s plans model-checked, %d scenarios emitted" % (run.cov["gen"][-1].get("enumerated"), len(scs)))
-    scs += all_scenarios(run, 200, 4000)
-    scs += vlib.gen_random(run, binary, "compose", 800 if quick else 15000, "C16")
+    scs += all_scenarios(run, 200, 2000)
+    scs += vlib.gen_random(run, binary, "compose", 800 if quick else 4000, "C16")
     chunks = max(1, min(vlib.NCPU // 2, len(scs) // 300))
     traces = vlib.replay(run, binary, "hints", scs, "h", chunks=chunks)
     st = session_validate(run, traces, lambda clause, fam: ["C16"] if clause == "Agree" else ([run.prop, "C13"] if clause == "ProcessDead" else []))
@@ -411,7 +411,7 @@ def c10(run):
     scs += all_scenarios(run, 200, 3000, only=("sel", "win", "agg", "fn"))
     # histograms (whose buckets get spread over the engines), name collisions, extreme magnitudes
     scs += vlib.generate(run, "Gen_WF", gen_cfg(run.tier, run.seed, 1, ["EmitWF"]), "wf", fam="C10")
-    scs += vlib.gen_random(run, binary, "compose", 600 if quick else 12000, "C10")
+    scs += vlib.gen_random(run, binary, "compose", 600 if quick else 4000, "C10")
     # constructs the engine does not support (fallback enabled everywhere), in every syntactic position
     write_vocab(run, binary)
     fb = vlib.generate(run, "Gen_Fallback", gen_cfg(run.tier, run.seed, 4 if quick else 1, ["EmitFb"]), "fb", fam="C10", timeout=1500)
@@ -502,10 +502,10 @@ def c11(run):
     binary = vlib.build()
     quick = run.tier == "quick"
     cfg = gen_cfg(run.tier, run.seed, 2 if quick else 1, ["Partition", "IdBijection", "EmitShard"])
-    scs = vlib.generate(run, "Shards", cfg, "shard", fam="C11", cap=(400 if quick else 4000), timeout=1500)
+    scs = vlib.generate(run, "Shards", cfg, "shard", fam="C11", cap=(400 if quick else 2000), timeout=1500)
     log("Shards.tla: %s (n, N, query, window) states model-checked, %d scenarios" % (run.cov["gen"][-1].get("enumerated"), len(scs)))
     scs += all_scenarios(run, 60, 1500)
-    scs += vlib.gen_random(run, binary, "compose", 200 if quick else 5000, "C11")
+    scs += vlib.gen_random(run, binary, "compose", 200 if quick else 2000, "C11")
     chunks = max(1, min(vlib.NCPU // 2, len(scs) // 60))
     # in-process GOMAXPROCS changes: children run sequentially inside, several children in parallel
     traces = vlib.replay(run, binary, "config", scs, "cf", chunks=chunks, j=max(1, vlib.NCPU // 4))
@@ -592,12 +592,12 @@ def extreme_params(run, binary):
     """C13, second half: invalid runtime parameters and degenerate inputs are reported as the query's error or as the
     reference engine's value - never as a dead process, and never as an internal error where the reference has a value."""
     quick = run.tier == "quick"
-    scs = vlib.generate(run, "Gen_Agg", gen_cfg(run.tier, run.seed, 1, ["EmitAgg"]), "agg", fam="C13", cap=(2500 if quick else 40000), timeout=1500)
+    scs = vlib.generate(run, "Gen_Agg", gen_cfg(run.tier, run.seed, 1, ["EmitAgg"]), "agg", fam="C13", cap=(2500 if quick else 10000), timeout=1500)
     scs += vlib.generate(run, "Gen_WF", gen_cfg(run.tier, run.seed, 1, ["EmitWF"]), "wf", fam="C13")
     # planning is part of "no query can crash the process": selectors in every syntactic position next to selectors the
     # optimizers merge them with (Optimizer.tla's pairs, emission only), and a sample of every query family
     scs += vlib.generate(run, "Optimizer", gen_cfg(run.tier, run.seed, 32 if quick else 40, ["EmitOpt"]), "opt", fam="C13",
-                         cap=(4500 if quick else 30000), timeout=1500)
+                         cap=(4500 if quick else 12000), timeout=1500)
     scs += all_scenarios(run, 100, 2000, only=("bin", "fn", "cmp", "hist", "shard"))
     traces = vlib.replay(run, binary, "query", scs, "xp", chunks=max(1, min(vlib.NCPU // 2, len(scs) // 400)))
     # unusual windows through the API: steps below a millisecond (500 us, 1 ns, 1.5 ms), start after end
@@ -750,9 +750,9 @@ def c12(run):
 def c07(run):
     binary = vlib.build()
     mc_volcano(run)
-    scs = all_scenarios(run, 700, 15000)
+    scs = all_scenarios(run, 700, 4000)
     quick = run.tier == "quick"
-    scs += vlib.gen_random(run, binary, "compose", 800 if quick else 20000, run.prop)
+    scs += vlib.gen_random(run, binary, "compose", 800 if quick else 5000, run.prop)
     chunks = max(1, min(vlib.NCPU // 2, len(scs) // 300))
     traces = vlib.replay(run, binary, "rangeinstant", scs, "ri", chunks=chunks)
     st = session_validate(run, traces, lambda clause, fam: [run.prop] if clause == "Agree" else (["C13", run.prop] if clause == "ProcessDead" else []))
